@@ -376,4 +376,137 @@ theorem fromFrequencies_wellFormed (f : List Nat) (t : Table) (h : fromFrequenci
       simp only [innerOkF, Bool.and_eq_true, decide_eq_true_eq]
       exact ⟨⟨this.1, this.2.1⟩, this.2.2⟩
 
+/-! ### paths are unique, hence the reference's lookup table is consistent (`LutOk`) -/
+
+theorem child_false (N : Table) (nd : Nat) : child N nd false = (node N nd).1 := rfl
+theorem child_true (N : Table) (nd : Nat) : child N nd true = (node N nd).2 := rfl
+
+theorem walk_go (N : Table) (p : List Bool) :
+    ∀ nd s, nd ≥ NUM_SYMBOLS → walk N nd p = some s → go N nd p = some s := by
+  induction p with
+  | nil => intro nd s _ h; simp [walk, walkF] at h
+  | cons b bs ih =>
+    intro nd s hnd h
+    simp only [walk, walkF] at h
+    have hc : childF (node N) nd b = child N nd b := rfl
+    rw [hc] at h
+    simp only [go, hnd, if_true]
+    by_cases hge : child N nd b ≥ NUM_SYMBOLS
+    · simp only [hge, if_true] at h
+      exact ih _ _ hge h
+    · simp only [hge, if_false] at h
+      split at h
+      · next hemp =>
+        have : bs = [] := by simpa using hemp
+        subst this
+        simpa [go] using h
+      · cases h
+
+theorem go_le (N : Table) (hsize : N.size = 513) (hin : InnerBelow N) (p : List Bool) :
+    ∀ nd m, nd < 513 → go N nd p = some m → m ≤ nd ∧ (p ≠ [] → m < nd) := by
+  induction p with
+  | nil => intro nd m _ h; simp only [go, Option.some.injEq] at h; subst h; exact ⟨Nat.le_refl _, fun h => absurd rfl h⟩
+  | cons b bs ih =>
+    intro nd m hnd h
+    simp only [go] at h
+    split at h
+    · next hge =>
+      have hch := hin nd hge (by rw [hsize]; exact hnd)
+      have hlt : child N nd b < nd := by
+        cases b
+        · rw [child_false]; exact hch.1
+        · rw [child_true]; exact hch.2.1
+      have := ih _ _ (by omega) h
+      exact ⟨by omega, fun _ => by omega⟩
+    · cases h
+
+theorem go_snoc (N : Table) (p : List Bool) (b : Bool) (nd j : Nat)
+    (h : go N nd (p ++ [b]) = some j) :
+    ∃ i, go N nd p = some i ∧ i ≥ NUM_SYMBOLS ∧ child N i b = j := by
+  rw [go_append] at h
+  cases hp : go N nd p with
+  | none => rw [hp] at h; cases h
+  | some i =>
+    rw [hp] at h
+    simp only [Option.bind_some, go] at h
+    split at h
+    · next hge => exact ⟨i, rfl, hge, by simpa using h⟩
+    · cases h
+
+theorem go_unique (N : Table) (hsize : N.size = 513) (hin : InnerBelow N) (hu : UniqueParent N)
+    (m : Nat) : ∀ (j : Nat) (p q : List Bool), 512 - j ≤ m →
+      go N ROOT_IDX p = some j → go N ROOT_IDX q = some j → p = q := by
+  induction m with
+  | zero =>
+    intro j p q hm hp hq
+    have l1 := go_le N hsize hin p ROOT_IDX j (by decide) hp
+    have l2 := go_le N hsize hin q ROOT_IDX j (by decide) hq
+    simp only [ROOT_IDX] at l1 l2
+    have hp' : p = [] := by
+      by_cases h : p = []
+      · exact h
+      · have := l1.2 h; omega
+    have hq' : q = [] := by
+      by_cases h : q = []
+      · exact h
+      · have := l2.2 h; omega
+    rw [hp', hq']
+  | succ m ih =>
+    intro j p q hm hp hq
+    have l1 := go_le N hsize hin p ROOT_IDX j (by decide) hp
+    have l2 := go_le N hsize hin q ROOT_IDX j (by decide) hq
+    simp only [ROOT_IDX] at l1 l2
+    rcases List.eq_nil_or_concat p with rfl | ⟨p', b, rfl⟩
+    · rcases List.eq_nil_or_concat q with rfl | ⟨q', b', rfl⟩
+      · rfl
+      · simp only [go, Option.some.injEq, ROOT_IDX] at hp
+        have := l2.2 (by simp)
+        omega
+    · rcases List.eq_nil_or_concat q with rfl | ⟨q', b', rfl⟩
+      · simp only [go, Option.some.injEq, ROOT_IDX] at hq
+        have := l1.2 (by simp)
+        omega
+      · simp only [List.concat_eq_append] at hp hq ⊢
+        obtain ⟨i, gi, i1, ci⟩ := go_snoc N p' b ROOT_IDX j hp
+        obtain ⟨i', gi', i1', ci'⟩ := go_snoc N q' b' ROOT_IDX j hq
+        have hi512 := (go_le N hsize hin p' ROOT_IDX i (by decide) gi).1
+        have hi512' := (go_le N hsize hin q' ROOT_IDX i' (by decide) gi').1
+        simp only [ROOT_IDX] at hi512 hi512'
+        have hchi := hin i i1 (by rw [hsize]; omega)
+        have hj : (node N i).1 = j ∨ (node N i).2 = j := by
+          cases b
+          · left; rw [child_false] at ci; exact ci
+          · right; rw [child_true] at ci; exact ci
+        have hj' : (node N i').1 = j ∨ (node N i').2 = j := by
+          cases b'
+          · left; rw [child_false] at ci'; exact ci'
+          · right; rw [child_true] at ci'; exact ci'
+        have hii : i = i' := hu i i' j i1 (by rw [hsize]; omega) i1' (by rw [hsize]; omega) hj hj'
+        subst hii
+        have hji : j < i := by rcases hj with e | e <;> omega
+        have hpq : p' = q' := ih i p' q' (by omega) gi gi'
+        have hbb : b = b' := by
+          cases b <;> cases b' <;>
+            simp only [child_false, child_true] at ci ci' <;> first | rfl | (exfalso; omega)
+        rw [hpq, hbb]
+
+theorem fromFrequencies_lutOk (f : List Nat) (t : Table) (h : fromFrequencies f = .ok t) :
+    LutOk t := by
+  have hwf := fromFrequencies_wellFormed f t h
+  obtain ⟨T, hT1, hT2, _, hdfs, _, hT4⟩ := fromFrequencies_ok f t h
+  have hsame : SameInner t T := dfs_inner _ _ _ _ _ _ hdfs
+  intro i _
+  simp only [lutOkAtF, decide_eq_true_eq]
+  intro hlt
+  obtain ⟨_, _, w1⟩ := (lutWalk_spec t LUTBITS ROOT_IDX i (by decide)).1 hlt
+  have w2 := (hwf.leaf hlt).2.2.2
+  simp only [lutWalk, lutDepth] at w1
+  rw [walk_congr t T hsame _ ROOT_IDX (by decide)] at w1 w2
+  have g1 := walk_go T _ _ _ (by decide) w1
+  have g2 := walk_go T _ _ _ (by decide) w2
+  have := go_unique T hT1 hT2 hT4 512 _ _ _ (by omega) g1 g2
+  have hl := congrArg List.length this
+  rw [natBits_length, codeBits_length] at hl
+  exact hl.symm
+
 end Tw.Huffman
